@@ -978,6 +978,41 @@ async fn dblog_script(case: &Value) -> Value {
            "tree_matches_table": memory == disk, "other_untouched": other_before == other_after})
 }
 
+
+/// C12 storage level: the real sos_backend::compact_folder on a real file-system folder log, then re-open
+async fn compact_folder_case(case: &Value) -> Value {
+    use sos_core::events::EventLog;
+    use sos_reducers::FolderReducer;
+    let vault = base_vault(&case["header"]);
+    let mut events = vec![vault.into_event().await.unwrap()];
+    for e in case["events"].as_array().unwrap() {
+        events.push(write_event_of(e));
+    }
+    let path = tmp_path("compact");
+    let _ = std::fs::remove_file(&path);
+    let account = sos_core::AccountId::random();
+    let folder_id = uuid_of(9);
+    let lt = sos_core::events::EventLogType::Folder(folder_id);
+    type BLog = sos_filesystem::FolderEventLog<sos_backend::Error>;
+    let mut fs_log = BLog::new_folder(&path, account, lt).await.unwrap();
+    fs_log.apply(events.as_slice()).await.unwrap();
+    let before = FolderReducer::new().reduce(&fs_log).await.unwrap().build(true).await.unwrap();
+    let mut log = sos_backend::BackendEventLog::FileSystem(fs_log);
+    let result = sos_backend::compact::compact_folder(&account, &folder_id, &mut log).await.map_err(|e| e.to_string());
+    let memory = leaves_hex(log.tree());
+    let mut fresh = FsLog::new_folder(&path, account, lt).await.unwrap();
+    let reopen = fresh.load_tree().await.map_err(|e| e.to_string());
+    let disk = leaves_hex(fresh.tree());
+    let after = FolderReducer::new().reduce(&fresh).await.unwrap().build(true).await.unwrap();
+    let a = vault_summary(&before).await;
+    let b = vault_summary(&after).await;
+    let _ = std::fs::remove_file(&path);
+    json!({"outcome":"ok", "result": result, "reopen": reopen, "tree_matches_file": memory == disk, "records_after": disk.len(),
+        "name_before": a["name"], "name_after": b["name"], "flags_before": a["flags"], "flags_after": b["flags"],
+        "meta_before": a["meta"], "meta_after": b["meta"], "secrets_before": a["secrets"], "secrets_after": b["secrets"],
+        "live": before.len()})
+}
+
 static TMP_COUNTER: std::sync::atomic::AtomicUsize = std::sync::atomic::AtomicUsize::new(0);
 
 fn tmp_path(tag: &str) -> std::path::PathBuf {
@@ -1043,6 +1078,7 @@ pub async fn run(case: &Value) -> Value {
     match op {
         "compact" => compact_case(case).await,
         "integrity" => integrity_case(case).await,
+        "compact_folder" => compact_folder_case(case).await,
         "dblog_script" => dblog_script(case).await,
         "wire_roundtrip" => wire_roundtrip_case(case).await,
         "server_devices" => server_devices_case(case).await,
